@@ -2,6 +2,7 @@
     Statements only. *)
 From DarlingModel Require Import Options.Resolve Options.FieldOrderProofs.
 From Coq Require Import Permutation.
+Local Open Scope string_scope.
 Local Open Scope list_scope.
 
 (** A derive never answers with "both" or "nothing": the outcome type has exactly two cases and
@@ -32,6 +33,25 @@ Proof.
     + intros [= <-]. discriminate.
   - intros [= <-]. discriminate.
 Qed.
+(** The recorded finding (known_findings.txt, key from_ident-then-default), as a theorem about
+    the model of the CONTAINER chain: acceptance there does depend on the order in which two
+    options are written although neither is repeated and the pair is not a documented conflict -
+    `from_ident` installs a stand-in container default, so a `default` written after it looks
+    like a repetition.  (For fields the order-freedom theorem above holds without exception.) *)
+Definition word_item (s : string) : nested :=
+  NPath (mkInfo (0, 0, 0, 0)%N s) (mkPath (mkInfo (0, 0, 0, 0)%N s) false [(s, ""%string)]).
+Definition darling_attr (items : list nested) : nested :=
+  NList (mkInfo (0, 0, 0, 0)%N ""%string) (mkPath (mkInfo (0, 0, 0, 0)%N ""%string) false [("darling"%string, ""%string)])
+        (mkInfo (0, 0, 0, 0)%N ""%string) items.
+
+Theorem C10_container_order_dependence_refuted :
+  forall reparse reparse_preds,
+    snd (parse_attributes (container_step reparse reparse_preds DFromField) copts0
+           [darling_attr [word_item "from_ident"; word_item "default"]]) <> nil
+    /\ snd (parse_attributes (container_step reparse reparse_preds DFromField) copts0
+              [darling_attr [word_item "default"; word_item "from_ident"]]) = nil.
+Proof. intros rp rpp. split; [vm_compute; discriminate|vm_compute; reflexivity]. Qed.
+
 Print Assumptions C10_rejection_is_never_empty.
 
 (** The field-option chain ([InputField::parse_nested], whose conflict checks depend on what was
@@ -78,3 +98,4 @@ Print Assumptions C10_field_accept_iff_well_formed.
 Print Assumptions C10_well_formedness_is_order_free.
 Print Assumptions C10_field_acceptance_order_and_split_free.
 Print Assumptions C10_field_step_refines_abstract_step.
+Print Assumptions C10_container_order_dependence_refuted.
